@@ -26,6 +26,7 @@ Suppressions:
 """
 
 import logging
+import os
 import re
 from contextlib import suppress
 from pathlib import Path
@@ -72,10 +73,18 @@ class IgnoreDirectiveParser:
         try:
             check_path = str(file_path.relative_to(self.project_root))
         except ValueError:
-            check_path = path_str
+            check_path = self._project_relative(file_path, path_str)
         result = any(matches_pattern(check_path, p) for p in self.repo_patterns)
         self._ignore_cache[path_str] = result
         return result
+
+    def _project_relative(self, file_path: Path, fallback: str) -> str:
+        """Resolve a relative spelling (e.g. ../proj/pkg/a.py) to the path inside the project."""
+        try:
+            absolute = Path(os.path.abspath(file_path))
+            return str(absolute.relative_to(os.path.abspath(self.project_root)))
+        except ValueError:
+            return fallback
 
     def has_file_ignore(self, file_path: Path, rule_id: str | None = None) -> bool:
         """Check for file-level ignore directive in first 10 lines."""
